@@ -186,13 +186,61 @@ func isRestorePath(fd *ast.FuncDecl) bool {
 	return false
 }
 
+// restoreOnly: the functions of the decorator package that are not methods of the restorer but
+// are called from restore-path code only (helpers of RestoreFile in files of their own, e.g.
+// behind a build tag): they belong to the restore path. Fixpoint over the package's call sites.
+func (e *Env) restoreOnly(pkg *packages.Package) map[*ast.FuncDecl]bool {
+	info := pkg.TypesInfo
+	decls := map[types.Object]*ast.FuncDecl{}
+	for _, fd := range load.AllFuncDecls(pkg) {
+		decls[info.Defs[fd.Name]] = fd
+	}
+	callers := map[*ast.FuncDecl][]*ast.FuncDecl{}
+	for _, fd := range load.AllFuncDecls(pkg) {
+		if fd.Body == nil {
+			continue
+		}
+		ast.Inspect(fd.Body, func(n ast.Node) bool {
+			if call, ok := n.(*ast.CallExpr); ok {
+				if fn := calleeFunc(info, call); fn != nil {
+					if d := decls[fn]; d != nil && d != fd {
+						callers[d] = append(callers[d], fd)
+					}
+				}
+			}
+			return true
+		})
+	}
+	out := map[*ast.FuncDecl]bool{}
+	for changed := true; changed; {
+		changed = false
+		for d, cs := range callers {
+			if out[d] || isRestorePath(d) || d.Name.IsExported() || len(cs) == 0 {
+				continue
+			}
+			all := true
+			for _, c := range cs {
+				if !isRestorePath(c) && !out[c] {
+					all = false
+				}
+			}
+			if all {
+				out[d] = true
+				changed = true
+			}
+		}
+	}
+	return out
+}
+
 // RPureDecorate: decorate-path functions never write go/ast memory.
 func (e *Env) RPureDecorate() {
 	n := 0
+	restoreHelpers := e.restoreOnly(e.Prog.Pkg(load.PkgDecorator))
 	for _, path := range []string{load.PkgDecorator, load.PkgGoast, load.PkgGotypes, load.PkgGuess, load.PkgSimple, load.PkgDst, load.PkgDstutil} {
 		pkg := e.Prog.Pkg(path)
 		for _, fd := range load.AllFuncDecls(pkg) {
-			if fd.Body == nil || (path == load.PkgDecorator && isRestorePath(fd)) {
+			if fd.Body == nil || (path == load.PkgDecorator && (isRestorePath(fd) || restoreHelpers[fd])) {
 				continue
 			}
 			n++
